@@ -140,7 +140,11 @@ def parse_value_or_config(
             pass
         else:
             with cfg_path.relative_path_context():
-                value = load_value(cfg_path.get_content(), simple_types=simple_types)
+                try:
+                    content = cfg_path.get_content()
+                except (OSError, ValueError) as ex:
+                    raise TypeError(f"Unable to read {value!r}: {ex}") from ex
+                value = load_value(content, simple_types=simple_types)
     if type(value) is str and value.strip() != "":
         parsed_val = load_value(value, simple_types=simple_types)
         if type(parsed_val) is not str:
